@@ -52,6 +52,7 @@ def check(ctx):
     _pad(ctx)
     _plumbing(ctx)
     _links(ctx)
+    _field_texts(ctx)
     _usage(ctx)
 
 
@@ -1102,7 +1103,7 @@ def _plumbing(ctx):
     prog = ctx.prog
     o = ctx.ob('width_table_plumbing', 'R13',
                "new_row appends exactly one fresh row and makes it current; new_cell / add_cell store exactly one cell holding "
-               "the given text in the current row, unconditionally; len(row) and get_cell(i) read the same cell list", floor=8)
+               "the given text in the current row, unconditionally; len(row) and get_cell(i) read the same cell list", floor=11)
 
     def one_call(f, pattern, what, expected_atom=None):
         """exactly one call matching pattern on every path of f -> the call node, else None (verdict recorded)"""
@@ -1202,5 +1203,517 @@ def _plumbing(ctx):
     ctx.guarded(o, run)
 
 
-def _links(ctx): pass
-def _usage(ctx): pass
+
+# ============================================================================================================== links
+def _links(ctx):
+    prog = ctx.prog
+    o = ctx.ob('links_external_iff_other_wbs', 'R2',
+               "__get_linked_task_id prints '' for a None / sentinel link, otherwise the linked task's id, followed by "
+               "'(external)' iff linked.wbs != task.wbs - no further condition", floor=4)
+    o2 = ctx.ob('links_columns', 'R10',
+                "predecessors / successors columns list one linked id per element of t.predecessors / t.successors in order, "
+                "the parent column prints the id of t.parent, all relative to the printed task", floor=5)
+
+    def one(o):
+        f = prog.func(LINK_ONE)
+        tp, lp = f.params[0], f.params[1]
+        cfg = cfg_of(f)
+        ex = Expander(prog, f, ctx.typer)
+
+        def is_none_atom(t, pol):
+            c = cmp_oriented(t, pol, lambda x: isinstance(x, ast.Name) and x.id == lp)
+            if c and isinstance(c[2], ast.Constant) and c[2].value is None and c[1] in ('is', '==', 'isnot', '!='):
+                return c[1] in ('is', '==')
+            return None
+
+        def is_sentinel_atom(t, pol):
+            c = cmp_oriented(t, pol, lambda x: bool(match(f"{lp}.id", x)))
+            if c and c[1] in ('==', '!=', 'is', 'isnot') and (match("EMPTY_TASK_ID", c[2]) or match("sys.maxsize", c[2])):
+                return c[1] in ('==', 'is')
+            return None
+
+        def ne_atom(t, pol):
+            c = cmp_norm(t, pol)
+            if not c:
+                return None
+            l, op, r = c
+            if (match(f"{lp}.wbs", l) and match(f"{tp}.wbs", r)) or (match(f"{tp}.wbs", l) and match(f"{lp}.wbs", r)):
+                if op in ('!=', 'isnot'):
+                    return True
+                if op in ('==', 'is'):
+                    return False
+            return None
+
+        guards = {'none': False, 'sentinel': False}
+        seen = {'ext': 0, 'int': 0}
+        rets = [n for n in walk_no_nested(f.node) if isinstance(n, ast.Return)]
+        for r in rets:
+            rn = cfg.node_of(r)
+            if not cfg.is_reachable(rn):
+                continue
+            conds0 = [(ex.expand(t, cfg.node_containing(t)), p) for t, p in cfg.conditions(rn)]
+            if r.value is None:
+                o.refute(f, r, r, "a link is printed as None")
+                continue
+            v = ex.expand(r.value, rn)
+            for cs, parts in cases_of(v):
+                conds = conds0 + cs
+                if not parts:
+                    for t, p in conds:
+                        for a, ap in split_disj(t, p):
+                            if is_none_atom(a, ap) is True:
+                                guards['none'] = r
+                            if is_sentinel_atom(a, ap) is True:
+                                guards['sentinel'] = r
+                    continue
+                head = parts[0]
+                m = match("str($x)", head)
+                if m:
+                    head = m['x']
+                if match(f"{tp}.id", head):
+                    o.refute(f, r, parts[0], f"the column prints `{src(head)}` - the id of the printed task itself, not of the linked task")
+                    continue
+                if not match(f"{lp}.id", head):
+                    o.undecided(f, r, r, f"returned text `{src(v)[:80]}` does not start with the linked task's id")
+                    continue
+                tail = [const_str(p) for p in parts[1:]]
+                if any(x is None for x in tail):
+                    o.undecided(f, r, r, f"returned text `{src(v)[:80]}` has non-constant parts after the id")
+                    continue
+                marker = ''.join(tail)
+                if marker not in ('', '(external)'):
+                    o.refute(f, r, marker, f"the id is followed by {marker!r}; expected '(external)' or nothing")
+                    continue
+                atoms = []
+                for t, p in conds:
+                    atoms += facts.split_conj(t, p)
+                rest = [(a, p) for a, p in atoms if is_none_atom(a, p) is not False and is_sentinel_atom(a, p) is not False]
+                nes = [ne_atom(a, p) for a, p in rest]
+                others = [(a, p) for (a, p), n in zip(rest, nes) if n is None]
+                ctext = ' and '.join(facts.cond_texts(rest)) or 'always'
+                want = marker == '(external)'
+                kind = 'ext' if want else 'int'
+                if others or not nes or any(n is not want for n in nes):
+                    exp = f"{lp}.wbs != {tp}.wbs" if want else f"{lp}.wbs == {tp}.wbs"
+                    what = "with the '(external)' marker" if want else "without the '(external)' marker"
+                    extra = (" (additional condition: " + ', '.join(facts.cond_texts(others)) + ")") if others and any(n is want for n in nes) else ''
+                    o.refute(f, r, f"{kind}: {ctext}", f"the linked id is printed {what} under `{ctext}`{extra}; expected exactly `{exp}`")
+                    seen[kind] += 1
+                    continue
+                seen[kind] += 1
+                o.site(f, r, f"{'id(external)' if want else 'id'} under {ctext}")
+        if not seen['ext'] and seen['int']:
+            o.refute(f, f.node, 'no marker', "no return path appends '(external)': links that leave the WBS are not marked")
+        if not seen['int'] and seen['ext']:
+            o.refute(f, f.node, 'always marker', "no return path prints the bare id: links inside the WBS are marked as external")
+        if not seen['ext'] and not seen['int'] and not o.unknown and not o.refuted:
+            o.undecided(f, f.node, f.name, "no return of the linked id found")
+        if guards['none']:
+            o.site(f, guards['none'], "'' for a None link")
+        else:
+            o.refute(f, f.node, 'None link', f"no `return ''` guarded by `{lp} is None`: a task without parent cannot be printed")
+        if guards['sentinel']:
+            o.site(f, guards['sentinel'], "'' for the sentinel (EMPTY_TASK_ID) parent")
+        else:
+            o.refute(f, f.node, 'sentinel link', f"no `return ''` guarded by `{lp}.id == EMPTY_TASK_ID`: the hidden WBS root is printed as a parent id")
+    ctx.guarded(o, one)
+
+    def cols(o):
+        one_f, many, fv = prog.func(LINK_ONE), prog.func(LINK_MANY), prog.func(FIELD_VALUE)
+        one_pat = f"_Repr._Repr{one_f.name}($a, $b)"
+        many_pat = f"_Repr._Repr{many.name}($a, $b)"
+        # ---- list of ids
+        tp, lp = many.params[0], many.params[1]
+        cfg = cfg_of(many)
+        ex = Expander(prog, many, ctx.typer)
+        rets = [n for n in walk_no_nested(many.node) if isinstance(n, ast.Return) and n.value is not None]
+        done = False
+        if len(rets) == 1:
+            m = match("$s.join($c)", ex.expand(rets[0].value, cfg.node_of(rets[0])))
+            if m and isinstance(m['c'], (ast.GeneratorExp, ast.ListComp)) and len(m['c'].generators) == 1:
+                done = True
+                g = m['c'].generators[0]
+                mm = match(one_pat, m['c'].elt)
+                if g.ifs:
+                    o.refute(many, rets[0], m['c'], "linked ids are filtered: some links are not printed")
+                elif not (isinstance(g.iter, ast.Name) and g.iter.id == lp):
+                    r = _iter_in_order(g.iter, lp)
+                    if r and r != 'ok':
+                        o.refute(many, rets[0], g.iter, "link loop " + r[1])
+                    elif r != 'ok':
+                        o.undecided(many, rets[0], g.iter, "link list is not built from the given linked tasks")
+                if not mm:
+                    o.undecided(many, rets[0], m['c'].elt, "element is not __get_linked_task_id(task, linked)")
+                elif not (match(tp, mm['a']) and same(mm['b'], g.target)):
+                    o.refute(many, rets[0], m['c'].elt, f"ids are computed by `{src(m['c'].elt)}`, expected (printed task, linked task)")
+                elif not const_str(m['s']):
+                    o.refute(many, rets[0], m['s'], "linked ids are joined without a separator")
+                elif not o.refuted and not o.unknown:
+                    o.site(many, rets[0], src(rets[0].value))
+                    o.site(many, rets[0], "separator " + repr(const_str(m['s'])))
+        if not done:
+            acc = Accumulator(many)
+            if acc.problem or acc.sep is None:
+                o.undecided(many, many.node, many.name, acc.problem or "the id list is not returned as <sep>.join(list)")
+            else:
+                calls = []
+
+                def classify(node, g):
+                    e = acc.emitted(node)
+                    if e is None:
+                        return None
+                    xv = ex.expand(e, cfg.node_containing(node))
+                    mm = match(one_pat, xv)
+                    if mm:
+                        calls.append((node, mm))
+                        return 'id'
+                    return 'other'
+                c = Counter(ctx, classify=classify, track_tables=False)
+                em = c.summary(many, (), {})
+                if '!irregular' in em or 'other' in em:
+                    o.undecided(many, many.node, many.name, "something other than one linked id per link is collected")
+                else:
+                    _verdict(o, many, many.node, 'one id per link', "a linked id is collected", em.get('id', {}), {(lp,): (1, 1)})
+                    for node, mm in calls:
+                        cn = cfg.node_containing(node)
+                        loop = next((fo for fo in cfg.enclosing_fors(cn) if same(fo.target, mm['b'])), None)
+                        r = _iter_in_order(ex.expand(loop.iter, cfg.node_of(loop)), lp) if loop is not None else None
+                        if not match(tp, mm['a']) or loop is None:
+                            o.refute(many, node, node, f"ids are computed by `{src(node)[:80]}`, expected __get_linked_task_id(printed task, "
+                                                       f"linked task of the loop)")
+                        elif r == 'ok':
+                            o.site(many, node, f"(task, {src(mm['b'])}) for each of {lp}, in order")
+                        elif r:
+                            o.refute(many, loop, loop.iter, "link loop " + r[1])
+                        else:
+                            o.undecided(many, loop, loop.iter, "link loop does not iterate the given linked tasks")
+                    if acc.sep == '':
+                        o.refute(many, many.node, 'separator', "linked ids are joined without a separator")
+        # ---- columns
+        h = fv
+        t, fld = h.params[0], h.params[1]
+        cfg = cfg_of(h)
+        ex = Expander(prog, h, ctx.typer, inline=False)
+        table = {'predecessors': (many_pat, 'predecessors'), 'successors': (many_pat, 'successors'), 'parent': (one_pat, 'parent')}
+        found = {k: False for k in table}
+        for r in [n for n in walk_no_nested(h.node) if isinstance(n, ast.Return) and n.value is not None]:
+            rn = cfg.node_of(r)
+            key = None
+            for tt, p in cfg.conditions(rn):
+                for a, ap in facts.split_conj(ex.expand(tt, cfg.node_containing(tt)), p):
+                    q = eq_const(a, ap)
+                    if q and q[2] and isinstance(q[0], ast.Name) and q[0].id == fld and q[1] in table:
+                        key = q[1]
+            if key is None:
+                continue
+            found[key] = True
+            pat, attr = table[key]
+            v = ex.expand(r.value, rn)
+            hits = [match(pat, x) for x in ast.walk(v) if isinstance(x, ast.Call)]
+            hits = [m for m in hits if m]
+            other_pat = one_pat if pat is many_pat else many_pat
+            if not hits:
+                if any(match(other_pat, x) for x in ast.walk(v) if isinstance(x, ast.Call)):
+                    o.refute(h, r, r.value, f"column `{key}` is printed by the wrong helper: `{src(v)[:80]}`")
+                else:
+                    o.undecided(h, r, r.value, f"column `{key}` is not printed through the linked-id helpers")
+                continue
+            m = hits[0]
+            if match(t, m['a']) and match(f"{t}.{attr}", m['b']):
+                o.site(h, r, f"{key}: {src(v)[:80]}")
+            else:
+                o.refute(h, r, r.value, f"column `{key}` prints `{src(v)[:80]}`; expected the helper applied to ({t}, {t}.{attr})")
+        for k, ok in found.items():
+            if not ok:
+                o.refute(h, h.node, f"no branch for {k}", f"__get_field_value has no branch for field '{k}': the generic attribute lookup cannot "
+                                                          f"see the relation, the column stays empty")
+    ctx.guarded(o2, cols)
+
+
+
+# ============================================================================================================== usage
+USAGE = 'schedule.ResourceUsageReport.__repr__'
+
+
+def _usage(ctx):
+    prog = ctx.prog
+    o = ctx.ob('usage_one_line_per_day', 'R13',
+               "ResourceUsageReport.__repr__: d = min(dates of all rows); while d <= max(dates of all rows): one table row for d; "
+               "d += 1 day (exactly once per iteration, after the row)", floor=6)
+    o2 = ctx.ob('usage_cells', 'R13',
+                "the usage table has one header row (title + one cell per resource) and per day one date cell plus one cell per "
+                "resource showing reserved(resource, day), for the same set of resources", floor=5)
+
+    def dates_of_all_rows(e, rows):
+        """e is `[x.date for x in rows]` (list / generator / set of the dates of every stored row)"""
+        if isinstance(e, ast.Call) and isinstance(e.func, ast.Name) and e.func.id in ('list', 'set', 'sorted', 'tuple') and len(e.args) == 1:
+            e = e.args[0]
+        parts = facts.comp_parts(e)
+        if not parts:
+            return None
+        elt, tgt, it, ifs = parts
+        if isinstance(tgt, ast.Name) and match(f"{tgt.id}.date", elt) and match(rows, it):
+            return 'filtered' if ifs else 'ok'
+        return None
+
+    def run(_):
+        f = prog.func(USAGE)
+        sn = f.self_name
+        rows = f"{sn}._ResourceUsageReport__rows"
+        cfg, fl = cfg_of(f), flow_of(f)
+        ex = Expander(prog, f, ctx.typer)
+        tables = _table_names(ctx, f)
+        row_calls = [c for c in facts.calls_named(f, 'new_row') if isinstance(c.func.value, ast.Name) and c.func.value.id in tables]
+        whiles = [w for w in walk_no_nested(f.node) if isinstance(w, ast.While)
+                  and any(x is c for c in row_calls for st in w.body for x in ast.walk(st))]
+        if not whiles:
+            hit = False
+            for c in row_calls:
+                for fo in cfg.enclosing_fors(cfg.node_containing(c)):
+                    it = ex.expand(fo.iter, cfg.node_of(fo))
+                    if any(isinstance(x, ast.Attribute) and x.attr == 'date' for x in ast.walk(it)) and \
+                            any(match(rows, x) for x in ast.walk(it)):
+                        o.refute(f, fo, fo.iter, f"table rows are produced by iterating `{src(it)[:90]}` - the dates that have reservations; "
+                                                 f"days between the first and the last reservation without a reservation get no line")
+                        hit = True
+            if not hit:
+                o.undecided(f, f.node, '__repr__', "no `while day <= last day` loop producing the table rows")
+            return
+        w = whiles[0]
+        wn = cfg.node_of(w)
+        steps = []
+        for n in walk_no_nested(w):
+            if isinstance(n, ast.AugAssign) and isinstance(n.target, ast.Name):
+                steps.append((n, n.target.id, n.op, n.value))
+            elif isinstance(n, ast.Assign) and len(n.targets) == 1 and isinstance(n.targets[0], ast.Name):
+                d0 = n.targets[0].id
+                m = match(f"{d0} + $x", n.value) or match(f"$x + {d0}", n.value)
+                m2 = match(f"{d0} - $x", n.value)
+                if m or m2:
+                    steps.append((n, d0, ast.Add() if m else ast.Sub(), (m or m2)['x']))
+        steps = [s_ for s_ in steps if mentions(w.test, s_[1])]
+        if not steps:
+            o.refute(f, w, w.test, "the day variable of the loop is never advanced")
+            return
+        d = steps[0][1]
+        c3 = cmp_oriented(w.test, True, lambda x: isinstance(x, ast.Name) and x.id == d)
+        if c3 is None:
+            o.undecided(f, w, w.test, f"loop test `{src(w.test)}` is not a comparison of the day with the last day")
+            return
+        _, op, bound = c3
+        if op == '<=':
+            o.site(f, w, f"while {d} <= {src(bound)}")
+        elif op == '<':
+            o.refute(f, w, w.test, f"loop test `{src(w.test)}` excludes the last day: the day of the last reservation gets no line")
+        elif op in ('>', '>=', '=='):
+            o.refute(f, w, w.test, f"loop test `{src(w.test)}` does not run from the first to the last day")
+        else:
+            o.undecided(f, w, w.test, f"loop test `{src(w.test)}` not understood")
+        # bounds
+        for what, e, at, fn, other in (('last day', bound, wn, 'max', 'min'), ('first day', None, wn, 'min', 'max')):
+            if e is None:
+                ds = [x for x in fl.reaching(d, wn) if not any(x.stmt is s_[0] for s_ in steps)]
+                if len(ds) != 1 or ds[0].kind != 'assign':
+                    o.undecided(f, w, d, f"initial value of `{d}` not unique")
+                    continue
+                v = ex.expand(ds[0].value, ds[0].node)
+                node = ds[0].stmt
+            else:
+                v = ex.expand(e, at)
+                node = w
+            m = match(f"{fn}($x)", v)
+            mo = match(f"{other}($x)", v)
+            if m and dates_of_all_rows(m['x'], rows) == 'ok':
+                o.site(f, node, f"{what} = {src(v)[:80]}")
+            elif (m or mo) and dates_of_all_rows((m or mo)['x'], rows):
+                if mo:
+                    o.refute(f, node, v, f"the {what} of the table is `{src(v)[:80]}`, expected {fn}(..) of the reservation dates")
+                else:
+                    o.refute(f, node, v, f"the {what} is computed from a filtered set of reservations: `{src(v)[:80]}`")
+            else:
+                o.undecided(f, node, v, f"{what} `{src(v)[:80]}` is not {fn}() over the dates of all stored rows")
+        # step
+        watom = 'while:' + src(w.test)
+        step_nodes = [s_[0] for s_ in steps if s_[1] == d]
+
+        def classify(node, g):
+            return 'step' if any(node is s_ for s_ in step_nodes) else None
+        c = Counter(ctx, classify=classify)
+        main = None
+        for r, em in c.exits(f, tables, {}):
+            m = match("$t.text_repr($*a)", r.value) if r is not None and r.value is not None else None
+            if m and isinstance(m['t'], ast.Name) and m['t'].id in tables:
+                main = em if main is None else None
+                main_ret = r
+        if main is None:
+            o.undecided(f, f.node, 'return', "__repr__ does not have exactly one `return table.text_repr(..)` exit")
+            return
+        if '!irregular' in main:
+            o.undecided(f, f.node, 'loops', "a loop is left by break/return: " + '; '.join(c.notes))
+            return
+        _verdict(o, f, w, 'day step per iteration', "the day is advanced", main.get('step', {}), {(watom,): (1, 1)})
+        for st, _d, sop, val in [s_ for s_ in steps if s_[1] == d]:
+            dd = facts.day_delta(ex.expand(val, cfg.node_of(st)))
+            if not isinstance(sop, ast.Add):
+                o.refute(f, st, st, "the day is moved backwards: the loop never reaches the last day")
+            elif dd is None:
+                o.undecided(f, st, st, f"step `{src(val)}` is not a constant timedelta")
+            elif dd != 1:
+                o.refute(f, st, st, f"the day is advanced by {dd:g} days per line: days in between get no line")
+            else:
+                o.site(f, st, f"{d} += 1 day")
+        _verdict(o, f, w, 'new_row per day', "table.new_row", main.get('new_row', {}), {(): (1, 1), (watom,): (1, 1)})
+
+        # ---- cells
+        cell_calls = [x for x in facts.calls_named(f, 'new_cell') if isinstance(x.func.value, ast.Name) and x.func.value.id in tables]
+        in_w = lambda n: any(x is n for st in w.body for x in ast.walk(st))
+        inner = []
+        for x in cell_calls:
+            if in_w(x):
+                for fo in cfg.enclosing_fors(cfg.node_containing(x)):
+                    if in_w(fo) and not any(fo is y for y in inner):
+                        inner.append(fo)
+        if len(inner) != 1:
+            o2.undecided(f, w, 'resource loop', "the day loop does not contain exactly one loop emitting the resource cells")
+            return
+        rl = inner[0]
+        ratom = c.loop_atom(f, rl)
+        want = {(): (1, 1), (ratom,): (1, 1), (watom,): (1, 1), (watom, ratom): (1, 1)}
+        _verdict(o2, f, f.node, 'cells', "table.new_cell", main.get('new_cell', {}), want)
+        hdr_loops = [fo for x in cell_calls if not in_w(x) for fo in cfg.enclosing_fors(cfg.node_containing(x))]
+        if ratom.startswith('var:'):
+            rv = ratom[4:]
+            if all(fl.same_version(rv, cfg.node_of(h), cfg.node_of(rl)) for h in hdr_loops) and hdr_loops:
+                o2.site(f, rl, f"header and day rows iterate the same `{rv}`")
+            else:
+                o2.refute(f, rl, 'resources redefined', f"`{rv}` is redefined between the header and the day rows: columns differ")
+        rit = ex.expand(rl.iter, cfg.node_of(rl))
+        m = match("set($x)", rit)
+        inner_c = m['x'] if m else rit
+        parts = facts.comp_parts(inner_c) if isinstance(inner_c, (ast.ListComp, ast.GeneratorExp, ast.SetComp)) else None
+        if parts and (m or isinstance(inner_c, ast.SetComp)) and isinstance(parts[1], ast.Name) \
+                and match(f"{parts[1].id}.resource", parts[0]) and match(rows, parts[2]):
+            if parts[3]:
+                o2.refute(f, rl, rl.iter, f"resource columns come from a filtered set of reservations: `{src(rit)[:80]}`")
+            else:
+                o2.site(f, rl, f"resources = {src(rit)[:80]}")
+        else:
+            o2.undecided(f, rl, rl.iter, f"resource columns `{src(rit)[:80]}` are not the set of resources of all stored rows")
+        kvar = rl.target.id if isinstance(rl.target, ast.Name) else None
+        res_calls = [x for x in facts.calls_named(f, 'reserved') if in_w(x) and match(f"{sn}.reserved($*a)", x)]
+        if not res_calls:
+            o2.undecided(f, rl, 'reserved', "resource cells do not show self.reserved(resource, day)")
+        for x in res_calls:
+            b = bind_args(x, prog.func('schedule.ResourceUsageReport.reserved'), drop_self=True)
+            vals = list(b.values()) if b else []
+            if len(vals) == 2 and isinstance(vals[0], ast.Name) and vals[0].id == kvar and isinstance(vals[1], ast.Name) and vals[1].id == d \
+                    and fl.same_version(d, wn, cfg.node_containing(x)):
+                o2.site(f, x, src(x))
+            else:
+                o2.refute(f, x, x, f"resource cell shows `{src(x)}`, expected reserved({kvar}, {d}) for the day of this line")
+        for x in cell_calls:
+            xn = cfg.node_containing(x)
+            if in_w(x) and not any(fo is rl for fo in cfg.enclosing_fors(xn)):
+                a0 = x.args[0] if x.args else None
+                if a0 is not None and mentions(ex.expand(a0, xn, stop={d}), d) and fl.same_version(d, wn, xn):
+                    o2.site(f, x, f"date cell {src(a0)}")
+                elif a0 is not None and mentions(ex.expand(a0, xn, stop={d}), d):
+                    o2.refute(f, x, x, f"the date cell is written after `{d}` was advanced: every line shows the following day")
+                else:
+                    o2.refute(f, x, x, f"the first cell of a day line `{src(a0) if a0 is not None else ''}` does not show the day `{d}`")
+    ctx.guarded(o, run)
+
+
+# ======================================================================================================== field texts
+_STR_METHODS = ('strftime', 'join', 'upper', 'lower', 'format', 'ljust', 'rjust', 'strip', 'title', 'replace', 'center', 'isoformat')
+
+
+def _str_valued(ctx, f, e, at, depth=0):
+    """True: the expression is a str on every evaluation; False: recognised non-str shape (raw attribute value, None);
+    None: unknown"""
+    prog = ctx.prog
+    if isinstance(e, ast.Constant):
+        return isinstance(e.value, str)
+    if isinstance(e, ast.JoinedStr):
+        return True
+    if isinstance(e, ast.IfExp):
+        a, b = _str_valued(ctx, f, e.body, at, depth), _str_valued(ctx, f, e.orelse, at, depth)
+        return False if (a is False or b is False) else (True if a and b else None)
+    if isinstance(e, ast.BinOp) and isinstance(e.op, ast.Add):
+        a, b = _str_valued(ctx, f, e.left, at, depth), _str_valued(ctx, f, e.right, at, depth)
+        return True if (a and b) else (None if a is None or b is None else False)
+    if isinstance(e, ast.BinOp) and isinstance(e.op, (ast.Mult, ast.Mod)):
+        return True if (_str_valued(ctx, f, e.left, at, depth) or _str_valued(ctx, f, e.right, at, depth)) else None
+    if isinstance(e, ast.Call):
+        fn = e.func
+        if isinstance(fn, ast.Name) and fn.id in ('str', 'repr', 'format'):
+            return True
+        if isinstance(fn, ast.Attribute) and fn.attr in _STR_METHODS:
+            return True
+        if isinstance(fn, ast.Attribute) and fn.attr in ('__getattribute__', 'get') or (isinstance(fn, ast.Name) and fn.id == 'getattr'):
+            return False
+        tgt = None
+        for ci in ctx.cg.calls_in(f):
+            if ci.node is e and ci.resolved and len(ci.targets) == 1:
+                tgt = ci.targets[0]
+        if tgt is not None and depth < 3:
+            rets = [n for n in walk_no_nested(tgt.node) if isinstance(n, ast.Return)]
+            vals = [_str_valued(ctx, tgt, r.value, cfg_of(tgt).node_of(r), depth + 1) if r.value is not None else False for r in rets]
+            if vals and all(v is True for v in vals):
+                return True
+            if any(v is False for v in vals):
+                return False
+        return None
+    if isinstance(e, ast.Name) and at is not None:
+        vs = value_set(f, e, at)
+        if len(vs) == 1 and vs[0][0] is e:
+            return None
+        vals = [_str_valued(ctx, f, v, vat, depth) for v, vat in vs]
+        return True if all(v is True for v in vals) else (False if any(v is False for v in vals) else None)
+    if isinstance(e, ast.Attribute):
+        return False if depth == 0 else None
+    return None
+
+
+def _field_texts(ctx):
+    prog = ctx.prog
+    o = ctx.ob('fields_every_cell_is_text', 'R7',
+               "__get_field_value returns a str on every path (the table measures and concatenates cell texts) and answers an "
+               "unknown field with '' instead of raising", floor=6)
+
+    def run(o):
+        f = prog.func(FIELD_VALUE)
+        t, fld = f.params[0], f.params[1]
+        cfg = cfg_of(f)
+        rets = [n for n in walk_no_nested(f.node) if isinstance(n, ast.Return)]
+        for r in rets:
+            rn = cfg.node_of(r)
+            if not cfg.is_reachable(rn):
+                continue
+            v = _str_valued(ctx, f, r.value, rn) if r.value is not None else False
+            if v is True:
+                o.site(f, r, src(r.value)[:70])
+            elif v is False:
+                o.refute(f, r, r, f"`{src(r)[:80]}` hands the raw value to the table: a non-str cell text breaks len() / concatenation "
+                                  f"(or prints None)")
+            else:
+                o.undecided(f, r, r, f"cannot tell whether `{src(r)[:80]}` is a str")
+        if cfg.exit.pred and any(p.kind != 'stmt' or not isinstance(p.ast, ast.Return) for p in cfg.exit.pred):
+            o.refute(f, f.node, 'falls off the end', "__get_field_value can end without a return: the cell text is None")
+        raw = [c for c in walk_no_nested(f.node) if isinstance(c, ast.Call) and (
+            (isinstance(c.func, ast.Attribute) and c.func.attr == '__getattribute__') or
+            (isinstance(c.func, ast.Name) and c.func.id == 'getattr' and len(c.args) == 2))]
+        guard = None
+        for r in rets:
+            if r.value is not None and const_str(r.value) == '':
+                for tt, p in cfg.conditions(cfg.node_of(r)):
+                    for a, ap in facts.split_conj(tt, p):
+                        if (match(f"{fld} not in {t}.__dict__", a) and ap) or (match(f"{fld} in {t}.__dict__", a) and not ap) or \
+                                (match(f"hasattr({t}, {fld})", a) and not ap):
+                            guard = r
+        if raw and guard is None:
+            o.refute(f, raw[0], 'unknown field', f"the attribute named by `{fld}` is read without a `return ''` for names the task does not "
+                                                 f"have: an unknown field raises AttributeError instead of printing an empty column")
+        elif raw:
+            o.site(f, guard, "unknown field -> ''")
+    ctx.guarded(o, run)
